@@ -405,6 +405,15 @@ SC_FNS = {
     # (without a ParseCallbacks::wrap_as_variadic_fn answer the wrapper takes the va_list itself)
     "sc_va": ("static inline int sc_va(int n, va_list ap) { return n + va_arg(ap, int); }", "int %s(int, va_list);", "ok = (direct_va(3, 4) == wrapped_va(3, 4));"),
     "match": ("static inline int match(int a) { return a + 2; }", "int %s(int);", "ok = (match(5) == W(5));"),
+    # unnamed parameters next to parameters that are literally called arg_<n> (the wrapper invents names for the unnamed ones)
+    "sc_un1": ("static int sc_un1(int arg_1, int, int arg_3);\nstatic int sc_un1(int a, int b, int c) { return a + 2 * b + 3 * c; }", "int %s(int, int, int);", "ok = (sc_un1(1, 2, 3) == W(1, 2, 3));"),
+    "sc_un2": ("static int sc_un2(int, int arg_2, int);\nstatic int sc_un2(int a, int b, int c) { return 5 * a + 2 * b + c; }", "int %s(int, int, int);", "ok = (sc_un2(1, 2, 3) == W(1, 2, 3));"),
+    "sc_un3": ("static int sc_un3(int, int arg_0);\nstatic int sc_un3(int a, int b) { return 7 * a + b; }", "int %s(int, int);", "ok = (sc_un3(1, 2) == W(1, 2));"),
+    "sc_h": ("static int sc_h(int sc_h) { return sc_h + 1; }", "int %s(int);", "ok = (sc_h(4) == W(4));"),
+    "sc_b": ("static _Bool sc_b(_Bool b, _Bool *pb) { return !b && *pb; }", "_Bool %s(_Bool, _Bool *);", "{ _Bool t = 1; ok = (sc_b(0, &t) == W(0, &t)); }"),
+    "sc_vol": ("static int sc_vol(volatile int *p, const volatile char *q) { return *p + *q; }", "int %s(volatile int *, const volatile char *);", "{ int x = 3; char y = 4; ok = (sc_vol(&x, &y) == W(&x, &y)); }"),
+    "sc_i128": ("static __int128 sc_i128(__int128 a) { return a + 1; }", "__int128 %s(__int128);", "ok = (sc_i128(41) == W(41));"),
+    "sc_tv": ("typedef void v_t;\nstatic v_t sc_tv(int a) { side_effect += 2 * a; }", "void %s(int);", "{ side_effect = 0; sc_tv(7); long s1 = side_effect; side_effect = 0; W(7); ok = (s1 == side_effect); }"),
     "sc_ptrs": ("static inline long sc_ptrs(const int *a, char *const b, int (*cb)(int, char)) { return *a + *b + cb(1, 'a'); }", "long %s(const int *, char *const, int (*)(int, char));",
                 "{ int a = 4; char b = 'q'; ok = (sc_ptrs(&a, &b, cbx) == W(&a, &b, cbx)); }"),
 }
@@ -420,6 +429,13 @@ SCENARIOS = [
     ("va_list-parameter", ["sc_va", "sc_plain"], [], [], "cli", None),
     ("rust-keyword-name", ["match", "sc_plain"], [], [], "cli", None),
     ("cxx-mode", ["sc_plain", "sc_void"], [], ["-x", "c++"], "cli", None),
+    ("unnamed-parameter-names", ["sc_un1", "sc_un2", "sc_plain"], [], [], "cli", None),
+    ("unnamed-parameter-clash", ["sc_un3", "sc_plain"], [], [], "cli", None),
+    ("parameter-named-like-function", ["sc_h", "sc_plain"], [], [], "cli", None),
+    ("bool-without-stdbool", ["sc_b", "sc_plain"], [], [], "cli", None),
+    ("volatile-pointees", ["sc_vol", "sc_plain"], [], [], "cli", None),
+    ("int128", ["sc_i128", "sc_plain"], [], [], "cli", None),
+    ("typedef-void-return", ["sc_tv", "sc_plain"], [], [], "cli", None),
     ("merge-extern-blocks-sort", ["sc_plain", "sc_struct", "sc_void"], ["--merge-extern-blocks", "--sort-semantically"], [], "cli", None),
     ("allowlist", ["sc_plain", "sc_void"], ["--allowlist-function", "sc_plain"], [], "cli", None),
     ("builder-path", ["sc_plain", "sc_struct", "sc_void"], [], [], "path", None),
